@@ -406,7 +406,7 @@ theorem selectBlock_exists (st : St) (imp : Imp) (ml : Option Nat) (id : Nat)
     obtain ⟨x, _, hx⟩ := hm
     split at hx
     · rename_i i s l e bl set hf
-      by_cases hok : lineOk bl l ml = true
+      by_cases hok : candOk imp bl l ml set = true
       · rw [if_pos hok] at hx
         simp at hx
         obtain ⟨_, rfl⟩ := hx
